@@ -18,7 +18,9 @@ InsertScripts ==
   { S(<<>>), S(<<"eos">>), S(<<"exc">>), S(<<"hdr", "eos">>), S(<<"hdr", "exc">>), S(<<"hdr", "prog", "end", "eos">>),
     S(<<"hdr", "prog", "exc">>), S(<<"prog", "hdr", "eos">>), <<P("hdr"), PN("log", 1), P("eos")>>,
     S(<<"bad">>), S(<<"hdr", "pong">>), S(<<"cut">>), S(<<"hdr", "cut">>), S(<<"hdr", "trunc">>),
-    S(<<"eosEarly">>), S(<<"hdr", "eosEarly">>), S(<<"tcols", "hdr", "eos">>) }
+    S(<<"eosEarly">>), S(<<"hdr", "eosEarly">>), S(<<"tcols", "hdr", "eos">>),
+    \* a server that repeats the header block (column info arrives again while the sender uses the first)
+    S(<<"hdr", "hdr", "eos">>), S(<<"hdr", "hdr", "hdr", "prog", "eos">>) }
 
 Pl(o, r) == [op |-> o, ret |-> r]
 Plans ==
@@ -49,6 +51,16 @@ QStreamConfigs == { c \in StreamConfigs : c.wbreak <= 3 /\ Len(c.plan) <= 2 }
 WellFormed(s) == \A i \in 1..Len(s) : s[i].k \notin {"bad", "pong", "cut", "trunc", "garbage", "eosEarly", "exc"}
 CancelConfigs == { c \in QSelectConfigs \cup InsertConfigs \cup QStreamConfigs :
                      WellFormed(c.script) /\ c.rfail = 0 /\ c.wbreak = -1 /\ \A i \in 1..Len(c.plan) : c.plan[i].ret # "err" }
+
+\* streams the server completes (liveness without cancellation: MC_QL_ends.cfg)
+\* (an INSERT that waits for column info the server never sends only ends by cancellation)
+Ends(c) == /\ Len(c.script) > 0 /\ c.script[Len(c.script)].k = "eos"
+           /\ (c.scn # "select" /\ c.needInfo => \E i \in 1..Len(c.script) : c.script[i].k = "hdr")
+EndConfigs == { c \in CancelConfigs : Ends(c) }
+\* the column-info hand-over without its repairs (MC_QL_info_neg_*.cfg)
+No == FALSE
+InfoConfigs == { c \in InsertConfigs \cup QStreamConfigs : c.needInfo /\ WellFormed(c.script) /\ c.rfail = 0 /\ c.wbreak = -1
+                                                        /\ Len(c.plan) <= 1 /\ Ends(c) }
 
 \* behaviour generation: print the scenario and its schedule when a behaviour is complete
 GenConfigs == QSelectConfigs \cup InsertConfigs \cup QStreamConfigs
